@@ -42,13 +42,6 @@ use std::{
 mod protocol;
 mod x25519_spec;
 
-/// Verification seam: the crypto resolver used for the Noise handshake, so that an external harness can
-/// build a `snow` peer with the same primitives.
-#[cfg(litep2p_verif)]
-pub mod verif {
-    pub use super::protocol::Resolver;
-}
-
 mod handshake_schema {
     include!(concat!(env!("OUT_DIR"), "/noise.rs"));
 }
@@ -838,6 +831,36 @@ fn parse_and_verify_peer_id(
     }
 
     Ok(peer_id)
+}
+
+/// Verification seam: thin wrappers around the private handshake-payload code (no logic).
+#[cfg(litep2p_verif)]
+pub mod verif {
+    use super::*;
+
+    /// The crypto resolver used for the Noise handshake, so that an external harness can build a
+    /// `snow` peer with the same primitives.
+    pub use super::protocol::Resolver;
+
+    /// Decode a received handshake payload and verify it against the remote DH public key, the way
+    /// `handshake()` treats a decrypted handshake message.
+    pub fn decode_and_verify_payload(
+        message: &[u8],
+        dh_remote_pubkey: &[u8],
+    ) -> Result<PeerId, NegotiationError> {
+        let payload =
+            handshake_schema::NoiseHandshakePayload::decode(message).map_err(ParseError::from)?;
+        parse_and_verify_peer_id(payload, dh_remote_pubkey)
+    }
+
+    /// Handshake payload assembled by a fresh [`NoiseContext`] and that context's DH public key.
+    pub fn fresh_payload(
+        keypair: &Keypair,
+        role: Role,
+    ) -> Result<(Vec<u8>, Vec<u8>), NegotiationError> {
+        let context = NoiseContext::new(keypair, role)?;
+        Ok((context.payload.clone(), context.keypair.public.clone()))
+    }
 }
 
 /// The type of the transport used for the crypto/noise protocol.
